@@ -682,5 +682,309 @@ theorem ringSim_bx (d : Pt) (b : Box) : RingSim k d (.bx b) (.bx (Box.aff k d b)
 
 end
 
+/-! ### ring × segment -/
+
+theorem rcp_nosegs (r : Ring) (hun : Unindexed r) (hn : r.numSegments = 0) (p : Pt) (b : Bool) :
+    ringContainsPoint r p b = ⟨false, none⟩ := by
+  unfold ringContainsPoint
+  rw [ring_search_eq r hun]
+  simp only [visit, hn, List.range_zero, List.filter_nil, foldUntil]
+  split_ifs <;> rfl
+
+theorem rcp_idx_lt (r : Ring) (hun : Unindexed r) (p : Pt) (b : Bool) (i : Nat)
+    (h : (ringContainsPoint r p b).idx = some i) : i < r.numSegments := by
+  unfold ringContainsPoint at h
+  by_cases hc : (!r.rect.containsPt p) = true
+  · rw [if_pos hc] at h; cases h
+  · rw [if_neg hc, ring_search_eq r hun] at h
+    simp only at h
+    revert h i
+    apply foldUntil_inv (fun (st : Bool × Option Nat) => ∀ i, st.2 = some i → i < r.numSegments)
+    · intro j hj st hst i
+      have hj := (mem_visit.1 hj).1
+      split_ifs
+      · intro e; simp only [Option.some.injEq] at e; omega
+      · exact hst i
+      · exact hst i
+    · intro i e; cases e
+
+section
+variable {k : Rat} (hk : 0 < k)
+include hk
+
+theorem searchAny_sim {d : Pt} {r r' : Ring} (h : RingSim k d r r') (q : Box)
+    (pred pred' : Seg → Nat → Bool)
+    (hp : ∀ i, i < r.numSegments → pred' (Seg.aff k d (r.segmentAt i)) i = pred (r.segmentAt i) i) :
+    r'.searchAny (Box.aff k d q) pred' = r.searchAny q pred := by
+  rw [ring_searchAny_eq r h.un, ring_searchAny_eq r' h.un']
+  have hv : visit r'.numSegments r'.segmentAt (Box.aff k d q) = visit r.numSegments r.segmentAt q := by
+    unfold visit
+    rw [h.nseg]
+    apply List.filter_congr
+    intro i hi
+    have hi := List.mem_range.1 hi
+    rw [h.seg i hi, segBox_aff' hk]
+    exact intersects_aff hk d _ _
+  rw [hv]
+  rw [Bool.eq_iff_iff, List.any_eq_true, List.any_eq_true]
+  constructor
+  · rintro ⟨i, hi, hx⟩
+    have hi' := (mem_visit.1 hi).1
+    rw [h.seg i hi', hp i hi'] at hx
+    exact ⟨i, hi, hx⟩
+  · rintro ⟨i, hi, hx⟩
+    have hi' := (mem_visit.1 hi).1
+    refine ⟨i, hi, ?_⟩
+    rw [h.seg i hi', hp i hi']
+    exact hx
+
+omit hk in
+theorem cwc4_aff (d : Pt) (s1 s2 : Seg) :
+    ((([(Seg.aff k d s1).a, (Seg.aff k d s1).b, (Seg.aff k d s2).a, (Seg.aff k d s2).b, (Seg.aff k d s1).a].zip
+      [(Seg.aff k d s1).a, (Seg.aff k d s1).b, (Seg.aff k d s2).a, (Seg.aff k d s2).b, (Seg.aff k d s1).a].tail).foldl
+        (fun acc (ab : Pt × Pt) => acc + (ab.2.x - ab.1.x) * (ab.2.y + ab.1.y)) (0 : Rat)))
+    = k * k * ((([s1.a, s1.b, s2.a, s2.b, s1.a].zip [s1.a, s1.b, s2.a, s2.b, s1.a].tail).foldl
+        (fun acc (ab : Pt × Pt) => acc + (ab.2.x - ab.1.x) * (ab.2.y + ab.1.y)) (0 : Rat))) := by
+  simp only [List.tail_cons, List.zip_cons_cons, List.zip_nil_right, List.foldl_cons, List.foldl_nil,
+    Seg.aff, aff_x, aff_y]
+  ring
+
+/-- the part of `ringContainsSegmentS` after the two membership tests (copied from the model;
+    `ringContainsSegmentS_eq` checks the copy by `rfl`) -/
+def rcsTail (ring : Ring) (seg : Seg) (allowOnEdge : Bool) (idxA idxB : Option Nat) : BoolSite :=
+  if allowOnEdge then
+    match idxA, idxB with
+    | some ia, some ib =>
+      if ib = ia then ⟨true, 6⟩
+      else
+        let rSegA := ring.segmentAt ia
+        let rSegB := ring.segmentAt ib
+        if rSegA.a = seg.a || rSegA.b = seg.a || rSegB.a = seg.a || rSegB.b = seg.a ||
+           rSegA.a = seg.b || rSegA.b = seg.b || rSegB.a = seg.b || rSegB.b = seg.b then ⟨true, 7⟩
+        else
+          let (rSegA, rSegB) := if ib < ia then (rSegB, rSegA) else (rSegA, rSegB)
+          let pts := [rSegA.a, rSegA.b, rSegB.a, rSegB.b, rSegA.a]
+          let cwc := (pts.zip pts.tail).foldl (fun acc (ab : Pt × Pt) =>
+            acc + (ab.2.x - ab.1.x) * (ab.2.y + ab.1.y)) (0 : Rat)
+          let clockwise := decide (cwc > 0)
+          if clockwise != ring.clockwise then ⟨false, 8⟩
+          else
+            let inter := ring.searchAny seg.box (fun seg2 _ =>
+              seg.intersects seg2 && !(seg2.raycast seg.a).on && !(seg2.raycast seg.b).on)
+            ⟨!inter, 9⟩
+    | some _, none =>
+      let inter := ring.searchAny seg.box (fun seg2 _ =>
+        seg.intersects seg2 && !(seg2.raycast seg.a).on)
+      ⟨!inter, 10⟩
+    | none, some _ =>
+      let inter := ring.searchAny seg.box (fun seg2 _ =>
+        seg.intersects seg2 && !(seg2.raycast seg.b).on)
+      ⟨!inter, 11⟩
+    | none, none =>
+      let inter := ring.searchAny seg.box (fun seg2 _ =>
+        seg.intersects seg2 && !(seg.raycast seg2.a).on && !(seg.raycast seg2.b).on)
+      ⟨!inter, 12⟩
+  else
+    let inter := ring.searchAny seg.box (fun seg2 _ => seg.intersects seg2)
+    ⟨!inter, 13⟩
+
+omit hk in
+theorem ringContainsSegmentS_eq (ring : Ring) (seg : Seg) (allowOnEdge : Bool) :
+    ringContainsSegmentS ring seg allowOnEdge =
+      if !ring.rect.containsPt seg.a || !ring.rect.containsPt seg.b then ⟨false, 1⟩
+      else
+        if !(ringContainsPoint ring seg.a allowOnEdge).hit then ⟨false, 2⟩
+        else if seg.b = seg.a then ⟨true, 3⟩
+        else
+          if !(ringContainsPoint ring seg.b allowOnEdge).hit then ⟨false, 4⟩
+          else if ring.convex then ⟨true, 5⟩
+          else rcsTail ring seg allowOnEdge (ringContainsPoint ring seg.a allowOnEdge).idx
+            (ringContainsPoint ring seg.b allowOnEdge).idx := rfl
+
+theorem intersects_seg_aff (d : Pt) (s o : Seg) :
+    (Seg.aff k d s).intersects (Seg.aff k d o) = s.intersects o := by
+  unfold Seg.intersects Seg.aff; rw [segIntersectsS_aff hk]
+
+theorem raycast_seg_aff (d : Pt) (s : Seg) (p : Pt) :
+    (Seg.aff k d s).raycast (Pt.aff k d p) = s.raycast p := by
+  unfold Seg.raycast Seg.aff; exact raycast_aff hk d _ _ _
+
+theorem rcsTail_sim {d : Pt} {r r' : Ring} (h : RingSim k d r r') (seg : Seg) (b : Bool)
+    (idxA idxB : Option Nat) (hA : ∀ i, idxA = some i → i < r.numSegments)
+    (hB : ∀ i, idxB = some i → i < r.numSegments) :
+    rcsTail r' (Seg.aff k d seg) b idxA idxB = rcsTail r seg b idxA idxB := by
+  have hsa : ∀ (pred pred' : Seg → Nat → Bool),
+      (∀ i, i < r.numSegments → pred' (Seg.aff k d (r.segmentAt i)) i = pred (r.segmentAt i) i) →
+      r'.searchAny (Seg.aff k d seg).box pred' = r.searchAny seg.box pred := by
+    intro pred pred' hp
+    rw [segBox_aff' hk]
+    exact searchAny_sim hk h _ _ _ hp
+  have e13 := hsa (fun seg2 _ => seg.intersects seg2)
+    (fun seg2 _ => (Seg.aff k d seg).intersects seg2) (fun i _ => intersects_seg_aff hk d seg _)
+  have e12 := hsa (fun seg2 _ => seg.intersects seg2 && !(seg.raycast seg2.a).on && !(seg.raycast seg2.b).on)
+    (fun seg2 _ => (Seg.aff k d seg).intersects seg2 && !((Seg.aff k d seg).raycast seg2.a).on &&
+      !((Seg.aff k d seg).raycast seg2.b).on) (fun i _ => by
+        simp only [intersects_seg_aff hk]
+        rw [show (Seg.aff k d (r.segmentAt i)).a = Pt.aff k d (r.segmentAt i).a from rfl,
+          show (Seg.aff k d (r.segmentAt i)).b = Pt.aff k d (r.segmentAt i).b from rfl,
+          raycast_seg_aff hk, raycast_seg_aff hk])
+  have e11 := hsa (fun seg2 _ => seg.intersects seg2 && !(seg2.raycast seg.b).on)
+    (fun seg2 _ => (Seg.aff k d seg).intersects seg2 && !(seg2.raycast (Seg.aff k d seg).b).on)
+    (fun i _ => by
+        simp only [intersects_seg_aff hk]
+        rw [show (Seg.aff k d seg).b = Pt.aff k d seg.b from rfl, raycast_seg_aff hk])
+  have e10 := hsa (fun seg2 _ => seg.intersects seg2 && !(seg2.raycast seg.a).on)
+    (fun seg2 _ => (Seg.aff k d seg).intersects seg2 && !(seg2.raycast (Seg.aff k d seg).a).on)
+    (fun i _ => by
+        simp only [intersects_seg_aff hk]
+        rw [show (Seg.aff k d seg).a = Pt.aff k d seg.a from rfl, raycast_seg_aff hk])
+  have e9 := hsa (fun seg2 _ => seg.intersects seg2 && !(seg2.raycast seg.a).on && !(seg2.raycast seg.b).on)
+    (fun seg2 _ => (Seg.aff k d seg).intersects seg2 && !(seg2.raycast (Seg.aff k d seg).a).on &&
+      !(seg2.raycast (Seg.aff k d seg).b).on)
+    (fun i _ => by
+        simp only [intersects_seg_aff hk]
+        rw [show (Seg.aff k d seg).a = Pt.aff k d seg.a from rfl,
+          show (Seg.aff k d seg).b = Pt.aff k d seg.b from rfl, raycast_seg_aff hk, raycast_seg_aff hk])
+  unfold rcsTail
+  cases b
+  · simp only [Bool.false_eq_true, if_false, e13]
+  · simp only [if_true]
+    rcases idxA with _ | ia <;> rcases idxB with _ | ib
+    · simp only [e12]
+    · simp only [e11]
+    · simp only [e10]
+    · have ha := hA ia rfl
+      have hb := hB ib rfl
+      simp only [h.seg ia ha, h.seg ib hb, e9]
+      have hsw : (if ib < ia then (Seg.aff k d (r.segmentAt ib), Seg.aff k d (r.segmentAt ia))
+            else (Seg.aff k d (r.segmentAt ia), Seg.aff k d (r.segmentAt ib)))
+          = (Seg.aff k d (if ib < ia then (r.segmentAt ib, r.segmentAt ia) else (r.segmentAt ia, r.segmentAt ib)).1,
+             Seg.aff k d (if ib < ia then (r.segmentAt ib, r.segmentAt ia) else (r.segmentAt ia, r.segmentAt ib)).2) := by
+        split_ifs <;> rfl
+      rw [hsw]
+      simp only [cwc4_aff]
+      have hkk : 0 < k * k := mul_pos hk hk
+      simp only [gt_iff_lt, smul_pos_iff hkk, h.clockwise]
+      simp only [Seg.aff, aff_inj hk]
+
+theorem ringContainsSegmentS_sim {d : Pt} {r r' : Ring} (h : RingSim k d r r') (he : r.empty = false)
+    (seg : Seg) (b : Bool) :
+    ringContainsSegmentS r' (Seg.aff k d seg) b = ringContainsSegmentS r seg b := by
+  have hr := h.rect he
+  rw [ringContainsSegmentS_eq, ringContainsSegmentS_eq, rcsTail_sim hk h seg b _ _
+    (fun i hi => by
+      rw [show (Seg.aff k d seg).a = Pt.aff k d seg.a from rfl, ringContainsPoint_sim hk h] at hi
+      exact rcp_idx_lt r h.un _ _ i hi)
+    (fun i hi => by
+      rw [show (Seg.aff k d seg).b = Pt.aff k d seg.b from rfl, ringContainsPoint_sim hk h] at hi
+      exact rcp_idx_lt r h.un _ _ i hi)]
+  simp only [Seg.aff, hr, Box.aff, containsPt_aff hk, ringContainsPoint_sim hk h, aff_inj hk, h.convex]
+
+/-- without the non-emptiness hypothesis only the verdict is equal (an empty ring answers
+    `false` at site 1 or 2 depending on whether the zero rectangle contains the endpoints) -/
+theorem ringContainsSegment_sim {d : Pt} {r r' : Ring} (h : RingSim k d r r') (seg : Seg) (b : Bool) :
+    ringContainsSegment r' (Seg.aff k d seg) b = ringContainsSegment r seg b := by
+  unfold ringContainsSegment
+  cases he : r.empty with
+  | false => rw [ringContainsSegmentS_sim hk h he]
+  | true =>
+    have hn := h.nseg0 he
+    have hn' : r'.numSegments = 0 := by rw [h.nseg, hn]
+    rw [ringContainsSegmentS_eq, ringContainsSegmentS_eq]
+    simp only [rcp_nosegs r h.un hn, rcp_nosegs r' h.un' hn', Bool.not_false, if_true]
+    split_ifs <;> rfl
+
+theorem search_sim {d : Pt} {r r' : Ring} (h : RingSim k d r r') (q : Box) {σ : Type}
+    (f f' : σ → Seg → Nat → σ × Bool)
+    (hf : ∀ i, i < r.numSegments → ∀ st, f' st (Seg.aff k d (r.segmentAt i)) i = f st (r.segmentAt i) i)
+    (st : σ) : r'.search (Box.aff k d q) f' st = r.search q f st := by
+  rw [ring_search_eq r h.un, ring_search_eq r' h.un']
+  have hv : visit r'.numSegments r'.segmentAt (Box.aff k d q) = visit r.numSegments r.segmentAt q := by
+    unfold visit
+    rw [h.nseg]
+    apply List.filter_congr
+    intro i hi
+    have hi := List.mem_range.1 hi
+    rw [h.seg i hi, segBox_aff' hk]
+    exact intersects_aff hk d _ _
+  rw [hv, foldUntil_congr _ (fun st i => f st (r.segmentAt i) i)]
+  intro i hi st
+  have hi := (mem_visit.1 hi).1
+  rw [h.seg i hi, hf i hi]
+
+theorem collinearPt_seg_aff (d : Pt) (s : Seg) (p : Pt) :
+    (Seg.aff k d s).collinearPt (Pt.aff k d p) = s.collinearPt p := collinearPt_aff hk d s p
+
+/-- the counting callback of `ringIntersectsSegmentS` (copied from the model;
+    `ringIntersectsSegmentS_eq` checks the copy by `rfl`) -/
+def riStep (seg : Seg) (allowOnEdge : Bool) (st : RISt) (seg2 : Seg) (_ : Nat) : RISt × Bool :=
+  if seg.intersects seg2 then
+    if !allowOnEdge then
+      if !(seg.collinearPt seg2.a && seg.collinearPt seg2.b) then
+        if !st.segAOn && (seg.a = seg2.a || seg.a = seg2.b) then
+          ({ st with segAOn := true }, true)
+        else if !st.segBOn && (seg.b = seg2.a || seg.b = seg2.b) then
+          ({ st with segBOn := true }, true)
+        else
+          let st' := { st with count := st.count + 1 }
+          (st', st'.count < 2)
+      else (st, st.count < 2)
+    else
+      let st' := { st with count := st.count + 1 }
+      (st', st'.count < 2)
+  else (st, st.count < 2)
+
+omit hk in
+theorem ringIntersectsSegmentS_eq (ring : Ring) (seg : Seg) (allowOnEdge : Bool) :
+    ringIntersectsSegmentS ring seg allowOnEdge =
+      if !seg.box.intersects ring.rect then ⟨false, 1⟩
+      else if (ringContainsPoint ring seg.a allowOnEdge).hit then ⟨true, 2⟩
+      else if (ringContainsPoint ring seg.b allowOnEdge).hit then ⟨true, 3⟩
+      else
+        let st := ring.search seg.box (riStep seg allowOnEdge) ⟨0, false, false⟩
+        ⟨st.count ≥ 2, if st.count ≥ 2 then 4 else 5⟩ := rfl
+
+theorem riStep_aff (d : Pt) (seg : Seg) (b : Bool) (st : RISt) (seg2 : Seg) (i : Nat) :
+    riStep (Seg.aff k d seg) b st (Seg.aff k d seg2) i = riStep seg b st seg2 i := by
+  unfold riStep
+  simp only [intersects_seg_aff hk]
+  rw [show (Seg.aff k d seg2).a = Pt.aff k d seg2.a from rfl,
+    show (Seg.aff k d seg2).b = Pt.aff k d seg2.b from rfl,
+    show (Seg.aff k d seg).a = Pt.aff k d seg.a from rfl,
+    show (Seg.aff k d seg).b = Pt.aff k d seg.b from rfl]
+  simp only [collinearPt_seg_aff hk, aff_inj hk]
+
+theorem ringIntersectsSegmentS_sim {d : Pt} {r r' : Ring} (h : RingSim k d r r') (he : r.empty = false)
+    (seg : Seg) (b : Bool) :
+    ringIntersectsSegmentS r' (Seg.aff k d seg) b = ringIntersectsSegmentS r seg b := by
+  have hr := h.rect he
+  rw [ringIntersectsSegmentS_eq, ringIntersectsSegmentS_eq, segBox_aff' hk, hr]
+  rw [show (Box.aff k d seg.box).intersects (Box.aff k d r.rect) = seg.box.intersects r.rect from
+    intersects_aff hk d _ _]
+  rw [show (Seg.aff k d seg).a = Pt.aff k d seg.a from rfl,
+    show (Seg.aff k d seg).b = Pt.aff k d seg.b from rfl,
+    ringContainsPoint_sim hk h, ringContainsPoint_sim hk h]
+  rw [search_sim hk h seg.box (riStep seg b) (riStep (Seg.aff k d seg) b)
+    (fun i _ st => riStep_aff hk d seg b st _ i)]
+
+omit hk in
+theorem ris_nosegs (r : Ring) (hun : Unindexed r) (hn : r.numSegments = 0) (seg : Seg) (b : Bool) :
+    ringIntersectsSegment r seg b = false := by
+  unfold ringIntersectsSegment
+  rw [ringIntersectsSegmentS_eq, ring_search_eq r hun]
+  simp only [rcp_nosegs r hun hn, visit, hn, List.range_zero, List.filter_nil, foldUntil]
+  split_ifs <;> first | rfl | contradiction
+
+theorem ringIntersectsSegment_sim {d : Pt} {r r' : Ring} (h : RingSim k d r r') (seg : Seg) (b : Bool) :
+    ringIntersectsSegment r' (Seg.aff k d seg) b = ringIntersectsSegment r seg b := by
+  cases he : r.empty with
+  | false => unfold ringIntersectsSegment; rw [ringIntersectsSegmentS_sim hk h he]
+  | true =>
+    have hn := h.nseg0 he
+    have hn' : r'.numSegments = 0 := by rw [h.nseg, hn]
+    rw [ris_nosegs r h.un hn, ris_nosegs r' h.un' hn']
+
+end
+
 end EQ
 end Geo
